@@ -501,27 +501,12 @@ package validate
 //@ pred slotOK(v valueValidator, t string) = ptrof(v) != nil
 //@ pred slotsSV(s *SchemaValidator) = typeis(s.validators[0], "*typeValidator") && ptrof(s.validators[0]) != nil && typeis(s.validators[1], "*schemaPropsValidator") && ptrof(s.validators[1]) != nil && typeis(s.validators[2], "*stringValidator") && ptrof(s.validators[2]) != nil && typeis(s.validators[3], "*formatValidator") && ptrof(s.validators[3]) != nil && typeis(s.validators[4], "*numberValidator") && ptrof(s.validators[4]) != nil && typeis(s.validators[5], "*schemaSliceValidator") && ptrof(s.validators[5]) != nil && typeis(s.validators[6], "*basicCommonValidator") && ptrof(s.validators[6]) != nil && typeis(s.validators[7], "*objectValidator") && ptrof(s.validators[7]) != nil
 
-//@ func newSchemaValidator
-//@   maypanic
-//@   modifies *
-//@   ensures[C06] (result == nil) == (schema == nil)
-//@   ensures[C06] result == nil || slotsSV(result)
-//@   ensures[C06] result == nil || (result.Options != nil && result.Schema != nil)
 
-//@ func (*SchemaValidator).Validate
-//@   requires[C06] isJSON(data)
-//@   requires[C06] s == nil || slotsSV(s)
-//@   modifies *
-//@   ensures[C06] result != nil
 
 //@ func (*typeValidator).schemaInfoForType
 //@   requires[C06] isJSON(data) && data != nil
 //@   pure
 //@   ensures[C06] (result0 == "number") == isF64(data)
-//@ func (*schemaPropsValidator).Validate
-//@   requires[C06] isJSON(data) && data != nil
-//@   modifies *
-//@   ensures[C06] result != nil
 //@ func (*schemaSliceValidator).Validate
 //@   requires[C06] isJSON(data) && (data == nil || kind(data) == 23)
 //@   modifies *
@@ -562,20 +547,6 @@ package validate
 //@   modifies *
 //@   ensures[C06] result != nil
 
-//@ func NewSchemaValidator
-//@   maypanic
-//@   modifies *
-//@   ensures[C06] (result == nil) == (schema == nil)
-//@   ensures[C06] result == nil || slotsSV(result)
-//@   ensures[C06] result == nil || (result.Options != nil && result.Schema != nil)
-//@ func AgainstSchema
-//@   maypanic
-//@   requires[C06] isJSON(data)
-//@   modifies *
-//@ func newSchemaPropsValidator
-//@   maypanic
-//@   modifies *
-//@   ensures[C06] result != nil && result.Options != nil
 //@ func (*formatValidator).Applies
 //@   requires[C06] isnil(source) || ptrof(source) != nil
 //@   modifies *
@@ -728,3 +699,61 @@ package validate
 //@   effects validation
 //@   ensures[C04,C06] result != nil && !redeemed(result) && fromPool(result) && result.Options != nil
 //@   ensures[C04] implies(opts != nil, result.Options == opts)
+
+// ---------------------------------------------------------------------------
+// Composite validators. readySV / readyProps are ghost readiness flags: established by the constructors (where their
+// one-level meaning is proved), required by Validate / redeemChildren (where it is assumed at entry), and lost by any
+// call on a relative of the object (effects discipline).
+//@ pred slotsLive(s *SchemaValidator) = !redeemed(ptrof(s.validators[0])) && !redeemed(ptrof(s.validators[1])) && !redeemed(ptrof(s.validators[2])) && !redeemed(ptrof(s.validators[3])) && !redeemed(ptrof(s.validators[4])) && !redeemed(ptrof(s.validators[5])) && !redeemed(ptrof(s.validators[6])) && !redeemed(ptrof(s.validators[7]))
+//@ pred slotsNilOrLive(s *SchemaValidator) = (isnil(s.validators[0]) || (typeis(s.validators[0], "*typeValidator") && ptrof(s.validators[0]) != nil && !redeemed(ptrof(s.validators[0])))) && (isnil(s.validators[1]) || (typeis(s.validators[1], "*schemaPropsValidator") && ptrof(s.validators[1]) != nil && !redeemed(ptrof(s.validators[1])))) && (isnil(s.validators[2]) || (typeis(s.validators[2], "*stringValidator") && ptrof(s.validators[2]) != nil && !redeemed(ptrof(s.validators[2])))) && (isnil(s.validators[3]) || (typeis(s.validators[3], "*formatValidator") && ptrof(s.validators[3]) != nil && !redeemed(ptrof(s.validators[3])))) && (isnil(s.validators[4]) || (typeis(s.validators[4], "*numberValidator") && ptrof(s.validators[4]) != nil && !redeemed(ptrof(s.validators[4])))) && (isnil(s.validators[5]) || (typeis(s.validators[5], "*schemaSliceValidator") && ptrof(s.validators[5]) != nil && !redeemed(ptrof(s.validators[5])))) && (isnil(s.validators[6]) || (typeis(s.validators[6], "*basicCommonValidator") && ptrof(s.validators[6]) != nil && !redeemed(ptrof(s.validators[6])))) && (isnil(s.validators[7]) || (typeis(s.validators[7], "*objectValidator") && ptrof(s.validators[7]) != nil && !redeemed(ptrof(s.validators[7]))))
+//@ pred propsSlot(s *SchemaValidator) = unbox(s.validators[1], "*schemaPropsValidator")
+//@ foldable readySV(s *SchemaValidator) = slotsSV(s) && slotsLive(s) && readyProps(propsSlot(s))
+//@ pred entryOK(e *SchemaValidator) = e != nil && !redeemed(e) && readySV(e)
+//@ pred entriesOK(l []*SchemaValidator) = forall(i, 0, len(l), entryOK(l[i])) && forall(a, 0, len(l), forall(b, 0, len(l), implies(a < b, l[a] != l[b])))
+//@ pred listsDisjoint(l []*SchemaValidator, m []*SchemaValidator) = forall(a, 0, len(l), forall(b, 0, len(m), l[a] != m[b]))
+//@ pred notIn(e *SchemaValidator, l []*SchemaValidator) = forall(a, 0, len(l), l[a] != e)
+//@ foldable readyProps(p *schemaPropsValidator) = entriesOK(p.anyOfValidators) && entriesOK(p.allOfValidators) && entriesOK(p.oneOfValidators) && listsDisjoint(p.anyOfValidators, p.allOfValidators) && listsDisjoint(p.anyOfValidators, p.oneOfValidators) && listsDisjoint(p.allOfValidators, p.oneOfValidators) && (p.notValidator == nil || (entryOK(p.notValidator) && notIn(p.notValidator, p.anyOfValidators) && notIn(p.notValidator, p.allOfValidators) && notIn(p.notValidator, p.oneOfValidators)))
+
+//@ func newSchemaValidator
+//@   effects validation
+//@   maypanic
+//@   ensures[C06,C04] (result == nil) == (schema == nil)
+//@   ensures[C06,C04] result == nil || (!redeemed(result) && fromPool(result) && result.Options != nil && result.Schema != nil)
+//@   ensures[C06,C04] result == nil || readySV(result)
+//@   ensures[C04] implies(result != nil && opts != nil, result.Options == opts)
+
+//@ func newSchemaPropsValidator
+//@   effects validation
+//@   maypanic
+//@   ensures[C06,C04] result != nil && !redeemed(result) && fromPool(result) && result.Options != nil
+//@   ensures[C06,C04] readyProps(result)
+//@   ensures[C04] implies(opts != nil, result.Options == opts)
+
+//@ func (*SchemaValidator).redeemChildren
+//@   effects validation
+//@   ensures[C04,C11] !redeemed(s)
+//@   requires[C04,C11] slotsNilOrLive(s) && (isnil(s.validators[1]) || readyProps(propsSlot(s)))
+//@   ensures[C04] isnil(s.validators[0]) && isnil(s.validators[1]) && isnil(s.validators[2]) && isnil(s.validators[3]) && isnil(s.validators[4]) && isnil(s.validators[5]) && isnil(s.validators[6]) && isnil(s.validators[7])
+
+//@ func (*SchemaValidator).Validate
+//@   effects validation
+//@   maypanic
+//@   requires[C06] isJSON(data)
+//@   requires[C06,C04] s == nil || readySV(s)
+//@   ensures[C04,C11] s == nil || redeemed(s) == old(s.Options.recycleValidators)
+//@   ensures[C04,C06] result != nil && okResult(result)
+//@   on_panic ensures[C11] s == nil || redeemed(s) == old(s.Options.recycleValidators)
+
+//@ func (*schemaPropsValidator).redeemChildren
+//@   effects validation
+//@   requires[C04,C11] readyProps(s)
+//@   ensures[C04,C11] !redeemed(s)
+
+//@ func (*schemaPropsValidator).Validate
+//@   effects validation
+//@   maypanic
+//@   requires[C06] isJSON(data) && data != nil
+//@   requires[C06,C04] readyProps(s)
+//@   ensures[C04,C11] redeemed(s) == old(s.Options.recycleValidators)
+//@   ensures[C04,C06] result != nil && okResult(result)
+//@   on_panic ensures[C11] redeemed(s) == old(s.Options.recycleValidators)
